@@ -105,7 +105,7 @@ write_stmt = dict(
                            (r'sink->apply_all_filters\s*\(.*?log_statement\s*\)', 'SINK_apply_all_filters(sink, TE_log_level(&transit_event))', 1),
                            (r'std::string_view\s+log_to_write', 'int log_to_write', 1),
                            (r'std::make_shared<PatternFormatter>\(\*sink->_override_pattern_formatter_options\)', 'PF_make(sink)', 1),
-                           (r'sink->_override_pattern_formatter_options\)', 'sink->has_override_options)', 1),
+                           (r'sink->_override_pattern_formatter_options\b', 'sink->has_override_options'),
                            (r'sink->_override_pattern_formatter->format\s*\(.*?log_message\s*\)\s*;', 'PF_format(sink->_override_pattern_formatter);', 1),
                            (r'sink->write_log\s*\(.*?log_to_write\s*\)\s*;', 'SINK_write_log(sink, TE_log_level(&transit_event), log_to_write);', 1)],
                 exceptions=True, may_throw=['SINK_write_log'],
@@ -134,3 +134,156 @@ __CPROVER_ensures(T_(transit_event_p)->g_writes <= 1) /*@ C03 "no sink is writte
     min_obligations=50)
 
 UNITS = [apply_filters, write_stmt]
+
+# ------------------------------------------------------------------------------------------ _flush_and_run_active_sinks
+FS_PRELUDE = r'''
+typedef struct Sink { size_t g_flushes; size_t g_periodic; bool g_flush_throws; } Sink;
+typedef struct SVec { size_t n; size_t g_p; Sink* tracked; Sink* other; } SVec;
+typedef struct BW { SVec _active_sinks_cache; int64_t _last_sink_flush_time; } BW;
+static inline size_t SVec_size(SVec* v) { return v->n; }
+static inline Sink* SVec_get(SVec* v, size_t i) { return i == v->g_p ? v->tracked : v->other; }
+static inline void SVec_clear(SVec* v) { v->n = 0; }
+size_t g_notify_calls, g_collects, g_n_collected; int64_t g_now;
+/* the for_each_logger lambda (unit BW.collect_sinks): fills the cache with the sinks of the valid loggers */
+void COLLECT_ACTIVE_SINKS(BW* self) __CPROVER_assigns(self->_active_sinks_cache.n, g_collects, g_n_collected) __CPROVER_ensures(g_collects == OLD(g_collects) + 1 && self->_active_sinks_cache.n <= (((size_t)1) << 40) && g_n_collected == self->_active_sinks_cache.n);
+int64_t STEADY_NOW(void) __CPROVER_assigns() __CPROVER_ensures(RET == g_now);
+void SINK_flush_sink(Sink* s) __CPROVER_requires(__CPROVER_is_fresh(s, sizeof(*s))) __CPROVER_assigns(s->g_flushes, g_exc)
+__CPROVER_ensures(s->g_flushes == OLD(s->g_flushes) + 1 && (g_exc == 0 || g_exc == EXC_STD || g_exc == EXC_OTHER));
+void SINK_run_periodic_tasks(Sink* s) __CPROVER_requires(__CPROVER_is_fresh(s, sizeof(*s))) __CPROVER_assigns(s->g_periodic) __CPROVER_ensures(s->g_periodic == OLD(s->g_periodic) + 1);
+void ERROR_NOTIFIER(BW* self) __CPROVER_assigns(g_notify_calls) __CPROVER_ensures(g_notify_calls == OLD(g_notify_calls) + 1);
+#define T_(s) ((s)->_active_sinks_cache.tracked)
+#define O_(s) ((s)->_active_sinks_cache.other)
+'''
+flush_sinks = dict(
+    name='BW.flush_sinks', primary='C06', props={'C06', 'C10'}, kind='S',
+    desc='BackendWorker::_flush_and_run_active_sinks: with a zero interval every collected sink is flushed exactly once; a throwing sink is reported and does not stop the others',
+    structs=[], prelude=FS_PRELUDE, enforce='BW__flush_and_run_active_sinks', replace=['COLLECT_ACTIVE_SINKS', 'STEADY_NOW', 'SINK_flush_sink', 'SINK_run_periodic_tasks', 'ERROR_NOTIFIER'], loopcontracts=True,
+    funcs=[dict(src=dict(header=H, cls='BackendWorker', name='_flush_and_run_active_sinks'), src_params=['run_periodic_tasks', 'sink_min_flush_interval'],
+                cfun='BW__flush_and_run_active_sinks', sig='void BW__flush_and_run_active_sinks(BW* self, bool run_periodic_tasks, int64_t sink_min_flush_interval)',
+                cls_c='BW', member_fields=['_active_sinks_cache', '_last_sink_flush_time'],
+                methods={'flush_sink': 'SINK_flush_sink', 'run_periodic_tasks': 'SINK_run_periodic_tasks', 'clear': 'SVec_clear'},
+                range_for=[(r'_active_sinks_cache', 'SVec_size', 'SVec_get', 'Sink*')],
+                pre_rules=[(r'_logger_manager\.for_each_logger\s*\(\s*\[this\]\(LoggerBase\* logger\).*?return false;\s*\}\s*\)\s*;', 'COLLECT_ACTIVE_SINKS(self);', 1),
+                           (r'sink_min_flush_interval\.count\(\)', 'sink_min_flush_interval', 1),
+                           (r'auto\s+const\s+now\s*=\s*std::chrono::steady_clock::now\(\)\s*;\s*\(', 'int64_t const now = STEADY_NOW(), 1; (', 1),
+                           (r'if\s*\(\s*int64_t const now = STEADY_NOW\(\), 1;', 'int64_t const now = STEADY_NOW(); if (', 1),
+                           (r'_options\.error_notifier\s*\([^;]*\)\s*;', 'ERROR_NOTIFIER(self);')],
+                exceptions=True, may_throw=['SINK_flush_sink'],
+                loops={0: r'''
+__CPROVER_assigns(__i0, g_exc, g_notify_calls, T_(self)->g_flushes, T_(self)->g_periodic, O_(self)->g_flushes, O_(self)->g_periodic)
+__CPROVER_loop_invariant(__i0 <= self->_active_sinks_cache.n && g_exc == 0)
+__CPROVER_loop_invariant(T_(self)->g_flushes == ((__i0 > self->_active_sinks_cache.g_p && should_flush_sinks) ? 1 : 0))
+__CPROVER_loop_invariant(T_(self)->g_periodic == ((__i0 > self->_active_sinks_cache.g_p && run_periodic_tasks) ? 1 : 0))
+__CPROVER_decreases(self->_active_sinks_cache.n - __i0)
+'''},
+                contract=r'''
+__CPROVER_requires(__CPROVER_is_fresh(self, sizeof(*self)) && __CPROVER_is_fresh(T_(self), sizeof(Sink)) && __CPROVER_is_fresh(O_(self), sizeof(Sink)))
+__CPROVER_requires(g_exc == 0 && T_(self)->g_flushes == 0 && T_(self)->g_periodic == 0 && g_collects == 0 && sink_min_flush_interval >= 0 && sink_min_flush_interval <= (((int64_t)1) << 40) && g_now >= 0 && g_now <= (((int64_t)1) << 61) && self->_last_sink_flush_time >= 0 && self->_last_sink_flush_time <= g_now)
+__CPROVER_assigns(g_exc, g_notify_calls, g_collects, g_n_collected, self->_active_sinks_cache.n, self->_last_sink_flush_time, T_(self)->g_flushes, T_(self)->g_periodic, O_(self)->g_flushes, O_(self)->g_periodic)
+__CPROVER_ensures(g_exc == 0) /*@ C10 "a sink whose flush throws (any type) does not stop the backend" */
+__CPROVER_ensures(g_collects == 1) /*@ C06 "the set of active sinks is rebuilt on every flush" */
+__CPROVER_ensures((sink_min_flush_interval == 0 && self->_active_sinks_cache.g_p < g_n_collected) ==> T_(self)->g_flushes == 1) /*@ C06 "with a zero interval (flush request, exit) every collected sink is flushed, also when an earlier sink threw" */
+__CPROVER_ensures((run_periodic_tasks && self->_active_sinks_cache.g_p < g_n_collected) ==> T_(self)->g_periodic == 1) /*@ C06 "periodic tasks of every collected sink run once" */
+__CPROVER_ensures(sink_min_flush_interval == 0 ==> T_(self)->g_flushes <= 1) /*@ C06 "no sink is flushed twice by one flush request" */
+__CPROVER_ensures(self->_active_sinks_cache.n == 0) /*@ C06 "the cache is emptied after use" */
+''')],
+    harness='  BW* s; bool p; int64_t i; BW__flush_and_run_active_sinks(s, p, i);',
+    dropped=['std::chrono arithmetic as 64-bit integers', 'the for_each_logger lambda (verified separately: unit BW.collect_sinks)'],
+    trusted=['sink cache abstracted to {one tracked sink, one representative of the others}'], min_obligations=50)
+
+UNITS.append(flush_sinks)
+
+# ------------------------------------------------------------------------------------------ the for_each_logger lambda of _flush_and_run_active_sinks
+CS_PRELUDE = r'''
+typedef struct Sink { int id; } Sink;
+typedef struct SVec { size_t n; size_t g_p; Sink* tracked; Sink* other; } SVec;      /* a logger's sinks */
+typedef struct LoggerBase { bool valid; SVec sinks; bool g_written_unflushed; } LoggerBase;
+typedef struct BW { int dummy; } BW;
+static inline size_t SVec_size(SVec* v) { return v->n; }
+static inline Sink* SVec_get(SVec* v, size_t i) { return i == v->g_p ? v->tracked : v->other; }
+static inline bool LB_is_valid_logger(LoggerBase* l) { return l->valid; }
+/* the active-sinks cache as a set: membership of the tracked sink and of the representative */
+bool g_cache_has_tracked, g_cache_has_other; size_t g_pushes_tracked;
+Sink* g_T; Sink* g_O;
+bool CACHE_contains(BW* self, Sink* s) __CPROVER_assigns() __CPROVER_ensures(RET == (s == g_T ? g_cache_has_tracked : g_cache_has_other));
+void CACHE_push_back(BW* self, Sink* s) __CPROVER_assigns(g_cache_has_tracked, g_cache_has_other, g_pushes_tracked)
+__CPROVER_ensures(s == g_T ? (g_cache_has_tracked && g_pushes_tracked == OLD(g_pushes_tracked) + 1 && g_cache_has_other == OLD(g_cache_has_other)) : (g_cache_has_other && g_cache_has_tracked == OLD(g_cache_has_tracked) && g_pushes_tracked == OLD(g_pushes_tracked)));
+'''
+collect_sinks = dict(
+    name='BW.collect_sinks', primary='C06', props={'C06'}, kind='S',
+    desc='the for_each_logger lambda of _flush_and_run_active_sinks: every sink of a registered logger that may hold written data ends up in the flush set exactly once',
+    structs=[], prelude=CS_PRELUDE, enforce='BW_collect_lambda', replace=['CACHE_contains', 'CACHE_push_back'], loopcontracts=True,
+    funcs=[dict(src=dict(header=H, cls='BackendWorker', name='_flush_and_run_active_sinks', lambda_after=r'_logger_manager\.for_each_logger\s*\(\s*\[this\]\(LoggerBase\* logger\)\s*\{'),
+                cfun='BW_collect_lambda', sig='bool BW_collect_lambda(BW* self, LoggerBase* logger)', cls_c='BW', member_fields=[],
+                methods={'is_valid_logger': 'LB_is_valid_logger'},
+                range_for=[(r'logger->sinks', 'SVec_size', 'SVec_get', 'Sink*')],
+                pre_rules=[(r'std::shared_ptr<Sink>\s+const\s*&\s*sink\b', 'Sink* sink', 1), (r'sink\.get\(\)', 'sink', 1),
+                           (r'auto\s+search_it\s*=\s*std::find_if\s*\(\s*_active_sinks_cache\.begin\(\)\s*,\s*_active_sinks_cache\.end\(\)\s*,.*?\}\s*\)\s*;', 'bool const found = CACHE_contains(self, logger_sink_ptr);', 1),
+                           (r'search_it\s*==\s*std::end\(_active_sinks_cache\)', '!found', 1),
+                           (r'_active_sinks_cache\.push_back\(logger_sink_ptr\)', 'CACHE_push_back(self, logger_sink_ptr)', 1)],
+                loops={0: r'''
+__CPROVER_assigns(__i0, g_cache_has_tracked, g_cache_has_other, g_pushes_tracked)
+__CPROVER_loop_invariant(__i0 <= logger->sinks.n)
+__CPROVER_loop_invariant(__i0 > logger->sinks.g_p ==> g_cache_has_tracked)
+__CPROVER_loop_invariant(g_pushes_tracked == ((g_cache_has_tracked && !__CPROVER_loop_entry(g_cache_has_tracked)) ? 1 : 0))
+__CPROVER_loop_invariant(__CPROVER_loop_entry(g_cache_has_tracked) ==> g_cache_has_tracked)
+__CPROVER_decreases(logger->sinks.n - __i0)
+'''},
+                contract=r'''
+__CPROVER_requires(__CPROVER_is_fresh(self, sizeof(*self)) && __CPROVER_is_fresh(logger, sizeof(*logger)) && __CPROVER_is_fresh(logger->sinks.tracked, sizeof(Sink)) && __CPROVER_is_fresh(logger->sinks.other, sizeof(Sink)))
+__CPROVER_requires(logger->sinks.g_p < logger->sinks.n && g_T == logger->sinks.tracked && g_O == logger->sinks.other && g_pushes_tracked == 0)
+__CPROVER_assigns(g_cache_has_tracked, g_cache_has_other, g_pushes_tracked)
+__CPROVER_ensures(!RET) /*@ C06 "the collection never stops early: every registered logger is visited" */
+__CPROVER_ensures(logger->valid ==> (g_cache_has_tracked && g_pushes_tracked == (OLD(g_cache_has_tracked) ? 0 : 1))) /*@ C06 "every sink of a valid logger is in the flush set, exactly once even when loggers share it" */
+__CPROVER_ensures((!logger->valid && logger->g_written_unflushed) ==> g_cache_has_tracked) /*@ C06 "a sink of a removed-but-still-registered logger that holds written, unflushed statements is in the flush set" K=flush-skips-removed-logger */
+''')],
+    harness='  BW* s; LoggerBase* l; BW_collect_lambda(s, l);',
+    dropped=['std::find_if over the cache rendered as a membership query', 'shared_ptr ownership of sinks'],
+    trusted=['a logger\'s sink list abstracted to {one tracked sink, one representative of the others}', 'LoggerManager::for_each_logger visits every registered logger until the callback returns true'], min_obligations=20)
+UNITS.append(collect_sinks)
+
+# ------------------------------------------------------------------------------------------ _populate_formatted_log_message / _populate_formatted_named_args
+FM_PRELUDE = ENUMS + r'''
+typedef struct MacroMetadata { Event g_event; } MacroMetadata;
+typedef struct Buf { int g_content; size_t g_clears; } Buf;                 /* formatted_msg: content id (1 = formatted text, 2 = error text) */
+typedef struct TE { MacroMetadata* macro_metadata; Buf* formatted_msg; } TE;
+typedef struct Options { bool check_printable_char; } Options;
+typedef struct Store { bool g_has_string; } Store;
+typedef struct BW { Options _options; Store _format_args_store; } BW;
+size_t g_notify_calls, g_format_calls, g_sanitize_calls; int g_thrown;
+static inline Event MM_event(MacroMetadata* m) { return m->g_event; }
+void BUF_clear(Buf* b) __CPROVER_requires(__CPROVER_is_fresh(b, sizeof(*b))) __CPROVER_assigns(b->g_content, b->g_clears) __CPROVER_ensures(b->g_content == 0 && b->g_clears == OLD(b->g_clears) + 1);
+/* fmtquill::vformat_to with the decoded arguments: runs user formatters - may throw ANY type */
+void VFORMAT_TO(Buf* b, BW* self) __CPROVER_requires(__CPROVER_is_fresh(b, sizeof(*b))) __CPROVER_assigns(b->g_content, g_exc, g_format_calls, g_thrown)
+__CPROVER_ensures(g_format_calls == OLD(g_format_calls) + 1 && (g_exc == 0 || g_exc == EXC_STD || g_exc == EXC_OTHER) && g_thrown == g_exc && (g_exc == 0 ==> b->g_content == 1));
+bool STORE_has_string_related_type(Store* s) __CPROVER_assigns() __CPROVER_ensures(RET == s->g_has_string);
+void SANITIZE(Buf* b, BW* self) __CPROVER_requires(__CPROVER_is_fresh(b, sizeof(*b))) __CPROVER_assigns(g_sanitize_calls) __CPROVER_ensures(g_sanitize_calls == OLD(g_sanitize_calls) + 1);
+void SET_ERROR_TEXT_AND_NOTIFY(Buf* b, BW* self) __CPROVER_requires(__CPROVER_is_fresh(b, sizeof(*b))) __CPROVER_assigns(b->g_content, g_notify_calls) __CPROVER_ensures(b->g_content == 2 && g_notify_calls == OLD(g_notify_calls) + 1);
+'''
+fmt_msg = dict(
+    name='BW.fmt_msg', primary='C10', props={'C10', 'C04'}, kind='S',
+    desc='BackendWorker::_populate_formatted_log_message: whatever the formatter throws, the exception is contained, the message becomes the error text and the notifier is called once',
+    structs=[], prelude=FM_PRELUDE, enforce='BW__populate_formatted_log_message',
+    replace=['BUF_clear', 'VFORMAT_TO', 'STORE_has_string_related_type', 'SANITIZE', 'SET_ERROR_TEXT_AND_NOTIFY'],
+    funcs=[dict(src=dict(header=H, cls='BackendWorker', name='_populate_formatted_log_message'), src_params=['transit_event', 'message_format'],
+                cfun='BW__populate_formatted_log_message', sig='void BW__populate_formatted_log_message(BW* self, TE* transit_event)',
+                cls_c='BW', member_fields=['_options', '_format_args_store'],
+                methods={'event': 'MM_event', 'has_string_related_type': 'STORE_has_string_related_type'},
+                pre_rules=[(r'MacroMetadata::Event::(\w+)', r'EV_\1'),
+                           (r'transit_event->formatted_msg->clear\(\)\s*;', 'BUF_clear(transit_event->formatted_msg);'),
+                           (r'fmtquill::vformat_to\s*\(\s*std::back_inserter\(\*transit_event->formatted_msg\).*?\}\s*\)\s*;', 'VFORMAT_TO(transit_event->formatted_msg, self);', 1),
+                           (r'sanitize_non_printable_chars\(\*transit_event->formatted_msg, _options\)\s*;', 'SANITIZE(transit_event->formatted_msg, self);', 1),
+                           (r'std::string\s+const\s+error\s*=\s*fmtquill::format\s*\(.*?\)\s*;\s*transit_event->formatted_msg->append\(error\)\s*;\s*_options\.error_notifier\(error\)\s*;', 'SET_ERROR_TEXT_AND_NOTIFY(transit_event->formatted_msg, self);')],
+                exceptions=True, may_throw=['VFORMAT_TO'],
+                contract=r'''
+__CPROVER_requires(__CPROVER_is_fresh(self, sizeof(*self)) && __CPROVER_is_fresh(transit_event, sizeof(TE)) && __CPROVER_is_fresh(transit_event->macro_metadata, sizeof(MacroMetadata)) && __CPROVER_is_fresh(transit_event->formatted_msg, sizeof(Buf)))
+__CPROVER_requires(g_exc == 0 && g_notify_calls == 0 && g_format_calls == 0 && g_thrown == 0 && transit_event->macro_metadata->g_event <= EV_LoggerRemovalRequest)
+__CPROVER_assigns(g_exc, g_notify_calls, g_format_calls, g_sanitize_calls, g_thrown, transit_event->formatted_msg->g_content, transit_event->formatted_msg->g_clears)
+__CPROVER_ensures(g_exc == 0) /*@ C10 "a formatter that throws - a std::exception or any other type - never escapes: the record is consumed and later statements are still delivered" */
+__CPROVER_ensures(g_thrown != 0 ==> (transit_event->formatted_msg->g_content == 2 && g_notify_calls == 1)) /*@ C10 "a statement that cannot be formatted is written with the explanatory error text and reported through the error notifier once" */
+__CPROVER_ensures(g_thrown == 0 ==> (transit_event->formatted_msg->g_content == 1 && g_notify_calls == 0)) /*@ C04 "otherwise the message is the formatted text (the previous content of the reused buffer is cleared first)" */
+__CPROVER_ensures(g_format_calls == 1)
+''')],
+    harness='  BW* s; TE* te; BW__populate_formatted_log_message(s, te);',
+    dropped=['text of the error message', 'fmt argument store contents'], trusted=['fmtquill::vformat_to may throw any exception type (user formatters)'], min_obligations=20)
+UNITS.append(fmt_msg)
